@@ -262,6 +262,8 @@ def main(pid, tier, repo=None):
     rule_ecshift(ctx)
     rule_epf_pad(ctx)
     rule_base_region(ctx)
+    from . import c15
+    c15.rule_orient_region(ctx)     # the requested rectangle reaches the frame in stored coordinates
     from . import fixguards
     fixguards.run(ctx, pid)
     ctx.not_decided("the padding amounts for Gabor / upsampling / chroma upsampling / LF smoothing and the group selection (numeric)")
